@@ -27,8 +27,11 @@
 // check with weight >= threshold, once, in threshold order, never outside a check.
 //
 // Keys: C19.wd.<early|twice|after_destruction|order|late|list.*|exception.*|syscall_args>[:delivered-in-critical-section]
+//         (class = an expiry was deferred by the critical-section flag earlier in the run: flag set, no
+//          handler ran, timer re-armed with reschedule_time — DESIGN §4 item 13; anything else is unclassified)
 //       C19.ww.<early|twice|after_destruction|order|no_trigger[:weight-equals-threshold]|outside_check|abandon_*|list.*|exception.*>
-// Profiles: wd | ww | default (70 % wd, 30 % ww).
+//       C19.wd.<twice|after_destruction|list.stale_element>:real-timer   (soak profile)
+// Profiles: wd | ww | default (70 % wd, 30 % ww) | soak (real ITIMER_PROF, thorough tier, run few in parallel).
 // Replay one placement only: --kv place=K --kv mode=M (0 elapse, 1 deliver, 2 deliver2).
 #include "pplx.hh"
 #include <csignal>
@@ -64,8 +67,10 @@ template <auto I, auto EXP> struct Rob_ww {
 };
 template struct Rob_ww<&WWatcher::init, &WWatcher::expired>;
 
-// Optional source failpoints (to be added to /repo under BUGSENG_PPL_VERIF): a weak
-// reference, so the engine links with and without them.
+// Source failpoints (BUGSENG_PPL_VERIF): PPL_VERIF_POINT(id) in /repo/src/verif_hooks.hh calls
+// Implementation::Verif::point_hook; the C-linkage variable of the same role is accepted too
+// (weak reference, so the engine links with and without it).  None is required: without
+// failpoints in Watchdog.cc / Pending_List the boundaries are the interposed calls only.
 extern "C" { extern void (*ppl_verif_point_hook)(const char*) __attribute__((weak)); }
 
 static std::string S(ll x) { return std::to_string(x); }
@@ -117,7 +122,7 @@ struct BRec { std::string id; bool armed; int npend; };
 struct WdRun {
   bool active, record; int place, mode; ll elapse_arg;
   int nb; std::vector<BRec> brecs; std::string place_id; bool place_done, place_armed; int place_npend;
-  const char* ctx; int delivering;
+  const char* ctx; int delivering; bool resched_seen;
   ll now, armed_until, interval; unsigned nset, nget, nsig, nfired;
   std::string vkey, vdetail; bool list_suspect;
   std::string log;
@@ -177,13 +182,19 @@ static void advance(ll us, bool incall) {
     us -= R.armed_until - R.now; tick(R.armed_until - R.now);
     R.armed_until = R.interval > 0 ? R.now + R.interval : -1;
     bool in_cs = wd_in_cs();
-    if (in_cs) { ++R.M.ndef; hx::count("wd.deliveries_in_critical_section"); }
     ++R.nsig; ev(std::string("SIGPROF") + (in_cs ? "(in-cs)" : ""));
+    unsigned fired0 = R.nfired; R.resched_seen = false;
     ++R.delivering;
     try { deliver_signal(SIGPROF); }
     catch (const std::exception& e) { unblock_sigprof(); wd_viol("exception.signal_handler", std::string(typeid(e).name()) + ": " + e.what()); }
     --R.delivering;
     wd_poll_flags();
+    // "deferred by the critical section" (the triage class of DESIGN §4 item 13) means exactly: the
+    // flag was set, no handler ran, and the library re-armed the timer with reschedule_time.
+    if (in_cs) {
+      if (R.nfired == fired0 && R.resched_seen) { ++R.M.ndef; hx::count("wd.deliveries_deferred_in_critical_section"); }
+      else hx::count("wd.deliveries_in_critical_section_not_deferred");
+    }
   }
   tick(us);
 }
@@ -209,7 +220,8 @@ static void boundary(const char* what, const char* pos) {
   ev("@" + id + (R.mode == 0 ? " elapse " : " deliver ") + S(dt));
   advance(dt, true);
 }
-static void hook_fn(const char* id) { boundary("point:", id); }
+static unsigned long g_point_calls = 0;
+static void hook_fn(const char* id) { if (R.active) ++g_point_calls; boundary("point:", id); }
 
 static void bad_args(const std::string& d) { wd_viol("syscall_args", d); }
 // soak profile: the calls go to the real timer
@@ -234,6 +246,7 @@ extern "C" int setitimer(int which, const struct itimerval* nv, struct itimerval
   ll us = (ll) nv->it_value.tv_sec * 1000000 + nv->it_value.tv_usec;
   R.interval = (ll) nv->it_interval.tv_sec * 1000000 + nv->it_interval.tv_usec;
   R.armed_until = us <= 0 ? -1 : R.now + us;
+  if (R.delivering > 0 && us == RESCHED_US) R.resched_seen = true;
   if (R.active) ev("set(" + S(us) + ")");
   boundary("setitimer", ":exit");
   return 0;
@@ -464,17 +477,20 @@ static void run_wd_case() {
   hx::count("wd.histories");
   long only_place = hx::opt().geti("place", -2), only_mode = hx::opt().geti("mode", 1);
   std::set<std::string> reported;
-  auto finish_run = [&](int place, int mode) {
+  // returns true when the case must stop: a failure outside the class that DESIGN §4 item 13 describes
+  // (runs of that class start from a clean library state, so the remaining placements stay meaningful)
+  auto finish_run = [&](int place, int mode) -> bool {
     hx::count("wd.runs");
-    if (R.vkey.empty()) return;
+    if (R.vkey.empty()) return false;
     hx::count("wd.failed_runs");
-    std::string cls = R.vkey + "@" + (place < 0 ? std::string("-") : R.place_id);
     hx::count("viol_runs." + R.vkey);
+    bool stop = R.vkey.find(":delivered-in-critical-section") == std::string::npos;
     if (reported.insert(R.vkey).second) {
       hx::trace() = "wd: " + hs + "| placement=" + S(place) + " mode=" + S(mode) + (place < 0 ? "" : " at " + R.place_id) + " | events: " + R.log;
       hx::violation(R.vkey, R.vdetail + " | replay: --kv place=" + S(place) + " --kv mode=" + S(mode));
       hx::trace() = "wd: " + hs;
     }
+    return stop;
   };
   if (only_place >= -1) {   // replay of a single placement
     run_wd(h, warm, -1, 1, true);
@@ -484,6 +500,7 @@ static void run_wd_case() {
   }
   run_wd(h, warm, -1, 1, true);
   std::vector<BRec> B = R.brecs;
+  if (hx::opt().geti("dumpb", 0)) for (size_t i = 0; i < B.size(); ++i) fprintf(stderr, "boundary %zu %s armed=%d npend=%d\n", i, B[i].id.c_str(), (int) B[i].armed, B[i].npend);
   hx::count("wd.signals_plain", R.nsig); hx::count("wd.fired_plain", R.nfired);
   finish_run(-1, 1);
   if (!R.vkey.empty()) return;      // the plain run is already wrong: placements would only repeat it
@@ -498,9 +515,9 @@ static void run_wd_case() {
       if (R.place_id != B[p].id) { hx::violation("harness.bug.placement_diverged", R.place_id + " vs " + B[p].id); return; }
       hx::count(mode == 0 ? "wd.placements_elapse" : "wd.placements_deliver");
       if (mode >= 1 && R.M.ndef > 0) hx::count("wd.runs_with_deferred_delivery");
-      if (B[p].npend > 0 || mode == 0)
+      if (B[p].armed)   // non-trivial: a watchdog event is scheduled when the placement acts
         hx::distinct("wd.place|" + B[p].id + "|m" + S(mode) + "|n" + S(B[p].npend) + "|def" + S(std::min(2, R.M.ndef)) + "|" + (R.vkey.empty() ? "ok" : R.vkey));
-      finish_run(p, mode);
+      if (finish_run(p, mode)) return;
     }
 }
 
@@ -824,10 +841,14 @@ static void run_case(uint64_t) {
 }
 static void at_exit() {
   hx::count("wd.graveyard", graveyard.size());
+  hx::count("wd.source_failpoint_calls", g_point_calls);
 }
 int main(int argc, char** argv) {
   R.active = false; R.armed_until = -1; R.ctx = "idle";
-  if (&ppl_verif_point_hook != 0) { ppl_verif_point_hook = hook_fn; hx::count("wd.source_failpoints_linked"); }
+  if (&ppl_verif_point_hook != 0) { ppl_verif_point_hook = hook_fn; hx::count("wd.point_hook_installed"); }
+#ifdef PPL_VERIF_POINT
+  Parma_Polyhedra_Library::Implementation::Verif::point_hook = hook_fn; hx::count("wd.point_hook_installed");
+#endif
   unblock_sigprof();
   return hx::main_loop(argc, argv, run_case, at_exit);
 }
